@@ -644,3 +644,10 @@ func preciseSlice(v ssa.Value) map[ssa.Value]bool {
 	visit(v, nil, 0)
 	return out
 }
+
+// isSortCall reports whether c brings its first argument into a total order
+// (package sort or package slices).
+func isSortCall(c ssa.CallInstruction) bool {
+	return an.IsCallTo(c, "sort.Slice", "sort.SliceStable", "sort.Sort", "sort.Stable", "sort.Strings", "sort.Ints",
+		"slices.Sort", "slices.SortFunc", "slices.SortStableFunc")
+}
